@@ -52,6 +52,7 @@ type frame struct {
 	recovered bool
 	visits    map[*ssa.BasicBlock]int
 	depth     int
+	skipPhis  bool
 }
 
 type symInput struct {
@@ -111,6 +112,10 @@ type Exec struct {
 	lastPos      token.Pos
 	entryName    string
 	tagStack     []string
+	spec         int
+	specStart    int
+	specObjStart int
+	specSteps    int
 }
 
 func (e *Exec) unsupported(msg string) {
@@ -122,6 +127,9 @@ func (e *Exec) unsupported(msg string) {
 }
 
 func (e *Exec) goPanicStr(s string) {
+	if e.spec > 0 {
+		e.abortSpec("panic: " + s)
+	}
 	panic(&goPanic{val: Iface{t: e.prog.runtimeErrType, v: &Str{s: s}}, descr: s})
 }
 
@@ -149,14 +157,34 @@ func (e *Exec) flushDecls() {
 }
 
 func (e *Exec) defineTerm(t *Term) string {
+	if e.solver.Dead {
+		e.resync()
+	}
 	e.flushDecls()
 	var sb strings.Builder
 	e.printer.out = &sb
+	e.printer.lemmas = e.printer.lemmas[:0]
 	r := e.printer.define(t)
 	if sb.Len() > 0 {
 		e.solver.Send(sb.String())
 	}
+	for _, l := range e.printer.lemmas {
+		e.solver.Send(l)
+	}
 	return r
+}
+
+// resync restarts a killed solver and re-sends the path context.
+func (e *Exec) resync() {
+	e.solver.Revive()
+	e.solver.Send("(push 1)\n")
+	e.declared = map[string]bool{}
+	e.printer.defined = map[int]bool{}
+	pcs := e.pc
+	e.pc = nil
+	for _, t := range pcs {
+		e.assertPC(t)
+	}
 }
 
 func (e *Exec) assertPC(t *Term) {
@@ -187,7 +215,12 @@ func (e *Exec) checkWith(t *Term, timeoutMs int) string {
 	return res // caller must call popCheck
 }
 
-func (e *Exec) popCheck() { e.solver.Send("(pop 1)\n") }
+func (e *Exec) popCheck() {
+	if e.solver.Dead {
+		return
+	}
+	e.solver.Send("(pop 1)\n")
+}
 
 // ---------------------------------------------------------------- decisions
 
@@ -198,6 +231,9 @@ func (e *Exec) branch(c *Term) bool {
 	}
 	if e.concrete != nil {
 		e.unsupported("non-constant branch in concrete mode")
+	}
+	if e.spec > 0 {
+		e.abortSpec("branch")
 	}
 	pos := len(e.trace)
 	if pos < len(e.prefix) {
@@ -249,6 +285,9 @@ func (e *Exec) concretize(t *Term, why string) uint64 {
 	}
 	if e.concrete != nil {
 		e.unsupported("non-constant concretisation in concrete mode")
+	}
+	if e.spec > 0 {
+		e.abortSpec("concretize")
 	}
 	pos := len(e.trace)
 	if pos < len(e.prefix) {
@@ -311,6 +350,9 @@ func (e *Exec) concretize(t *Term, why string) uint64 {
 func (e *Exec) choose(n int) int {
 	if n <= 1 {
 		return 0
+	}
+	if e.spec > 0 {
+		e.abortSpec("choose")
 	}
 	pos := len(e.trace)
 	if pos < len(e.prefix) {
@@ -515,6 +557,9 @@ func (e *Exec) ensureInit(p *ssa.Package) {
 	if e.initDone[p] {
 		return
 	}
+	if e.spec > 0 {
+		e.abortSpec("package init")
+	}
 	e.initDone[p] = true
 	for _, m := range p.Members {
 		if g, ok := m.(*ssa.Global); ok {
@@ -546,6 +591,9 @@ func (e *Exec) callFunction(caller *frame, fn *ssa.Function, args []Value, env [
 		return e.callExternal(caller, fn, args)
 	}
 	if h := e.prog.intrinsics[fn.String()]; h != nil && !e.prog.cfg.NoIntrinsic[fn.String()] {
+		if e.spec > 0 && !pureIntrinsic(fn.String()) {
+			e.abortSpec("impure intrinsic " + fn.String())
+		}
 		return h(e, caller, args)
 	}
 	if fn.Name() == "init" && fn.Pkg != nil && fn.Signature.Recv() == nil && len(fn.Params) == 0 && fn.Parent() == nil {
@@ -644,8 +692,15 @@ func (e *Exec) runBlocks(fr *frame) (normal bool) {
 		if e.inInit == 0 && fr.visits[fr.block] > e.unwind {
 			panic(&pathEnd{kind: endUnwind, msg: fmt.Sprintf("unwind bound %d exceeded in %s block %d", e.unwind, fr.fn, fr.block.Index)})
 		}
+		skip := fr.skipPhis
+		fr.skipPhis = false
 	instrs:
 		for _, ins := range fr.block.Instrs {
+			if skip {
+				if _, isPhi := ins.(*ssa.Phi); isPhi {
+					continue
+				}
+			}
 			e.steps++
 			if e.steps > e.prog.cfg.MaxSteps {
 				panic(&pathEnd{kind: endUnwind, msg: "step budget exceeded"})
@@ -793,6 +848,9 @@ func (e *Exec) visitInstr(fr *frame, ins ssa.Instruction) cont {
 		e.runDefers(fr)
 	case *ssa.Panic:
 		v := e.get(fr, ins.X)
+		if e.spec > 0 {
+			e.abortSpec("panic")
+		}
 		panic(&goPanic{val: v, descr: e.describePanic(v)})
 	case *ssa.Send:
 		e.chanSend(e.get(fr, ins.Chan), e.get(fr, ins.X))
@@ -1435,18 +1493,10 @@ func (e *Exec) indexValues(vals []Value, idx *Term) Value {
 	}
 	bad := e.ts.Not(e.ts.Cmp(OpUlt, idx, e.ts.BV(64, uint64(n))))
 	e.boundsBranch(bad, fmt.Sprintf("runtime error: index out of range [symbolic] with length %d", n))
-	var res Value
-	for i := n - 1; i >= 0; i-- {
-		if res == nil {
-			res = vals[i]
-			continue
-		}
-		m, ok := e.merge(e.ts.Eq(idx, e.ts.BV(64, uint64(i))), vals[i], res)
-		if !ok {
-			j := e.concretize(idx, "index")
-			return vals[j]
-		}
-		res = m
+	res, ok := e.selectTree(vals, idx)
+	if !ok {
+		j := e.concretize(idx, "index")
+		return vals[j]
 	}
 	return res
 }
@@ -1468,6 +1518,9 @@ func (e *Exec) mapFind(m *MapObj, k Value) int {
 }
 
 func (e *Exec) mapUpdate(m *MapObj, k, v Value) {
+	if e.spec > 0 && m.id <= e.specObjStart {
+		e.abortSpec("map update")
+	}
 	if i := e.mapFind(m, k); i >= 0 {
 		m.entries[i] = &mapEntry{key: m.entries[i].key, val: v}
 		return
@@ -1476,6 +1529,9 @@ func (e *Exec) mapUpdate(m *MapObj, k, v Value) {
 }
 
 func (e *Exec) mapDelete(m *MapObj, k Value) {
+	if e.spec > 0 && m.id <= e.specObjStart {
+		e.abortSpec("map delete")
+	}
 	if i := e.mapFind(m, k); i >= 0 {
 		ne := make([]*mapEntry, 0, len(m.entries)-1)
 		ne = append(ne, m.entries[:i]...)
@@ -1611,6 +1667,9 @@ func (e *Exec) typeAssert(fr *frame, ins *ssa.TypeAssert) Value {
 // ---------------------------------------------------------------- channels
 
 func (e *Exec) chanSend(c Value, v Value) {
+	if e.spec > 0 {
+		e.abortSpec("chan send")
+	}
 	ch, _ := c.(*ChanObj)
 	if ch == nil {
 		panic(&pathEnd{kind: endDeadlock, msg: "send on nil channel"})
@@ -1625,6 +1684,9 @@ func (e *Exec) chanSend(c Value, v Value) {
 }
 
 func (e *Exec) chanRecv(c Value, commaOk bool, t types.Type) Value {
+	if e.spec > 0 {
+		e.abortSpec("chan recv")
+	}
 	ch, _ := c.(*ChanObj)
 	if ch == nil {
 		panic(&pathEnd{kind: endDeadlock, msg: "receive on nil channel"})
